@@ -37,6 +37,54 @@ prelude.declare_fun('sc_is', [t.INT, t.INT], t.BOOL)      # sc_is(sub, class-cod
 prelude.declare_fun('sc_returns_int', [t.INT], t.BOOL)
 
 
+def _find_apps(terms, name):
+    out = {}
+    seen = set()
+    stack = list(terms)
+    while stack:
+        x = stack.pop()
+        if id(x) in seen:
+            continue
+        seen.add(id(x))
+        if x.op == name:
+            out[x.smt()] = x
+        if x.op == 'forall':
+            stack.append(x.args[1])
+        elif x.op not in ('int', 'bool', 'strlit', 'var', 'raw'):
+            stack.extend(a for a in x.args if isinstance(a, t.T))
+    return list(out.values())
+
+
+def locality_instances(hyps, goal):
+    """read-locality of parsing (interface clause): the outcome of a sub-construct on a stream depends on the buffer only
+    through its first `len` bytes.  Instantiated for every pair of P_ok applications of the same sub-construct that differ only
+    in the buffer argument: if the two buffers agree on [0, len) every outcome function agrees."""
+    apps = [a for a in _find_apps(list(hyps) + [goal], 'P_ok') if not any(v.endswith('!|') or v.endswith('!') for v in a.free_vars())]
+    out = []
+    i = t.var('loc!', t.INT)
+    for x in range(len(apps)):
+        for y in range(x + 1, len(apps)):
+            a, b = apps[x], apps[y]
+            if a.args[0].smt() != b.args[0].smt() or a.args[1].smt() == b.args[1].smt():
+                continue
+            if [z.smt() for z in a.args[2:]] != [z.smt() for z in b.args[2:]]:
+                # lengths / positions / heaps must be syntactically the same or provably equal: state equality as a premise
+                same_rest = t.and_(*[t.eq(p, q) for p, q in zip(a.args[2:], b.args[2:])])
+            else:
+                same_rest = t.TRUE
+            ln = a.args[2]
+            agree = t.forall([i], t.implies(t.and_(t.le(t.ZERO, i), t.lt(i, ln)), t.eq(t.select(a.args[1], i), t.select(b.args[1], i))),
+                             pats=[[t.select(a.args[1], i)], [t.select(b.args[1], i)]])
+            concl = [t.eq(a, b)]
+            for fn, sort in (('P_val', t.VAL), ('P_end', t.INT), ('P_exc', t.INT), ('P_H', 'Heap'), ('P_D', 'Dom'), ('P_fpos', t.INT)):
+                concl.append(t.eq(t.app(fn, sort, *a.args), t.app(fn, sort, *b.args)))
+            out.append(t.implies(t.and_(same_rest, agree), t.and_(*concl)))
+    return out
+
+
+prelude.INSTANCE_GENERATORS.append(locality_instances)
+
+
 class VSubList(Value):
     """self.subcons: a list of sub-constructs of unknown length"""
     kind = 'sublist'
@@ -70,6 +118,9 @@ class ConstructInterface(Interface):
         if attr == 'name':
             v = t.app('sc_name', t.VAL, b.ident)
             st.assume(t.or_(t.app('(_ is VNone)', t.BOOL, v), t.app('(_ is VStr)', t.BOOL, v)))
+            # member names do not shadow the structural entries of a scope (hypothesis on construct definitions)
+            for k in self.RESERVED:
+                st.assume(t.ne(v, t.app('VStr', t.VAL, S(k))))
             return [(st, VDyn(v))]
         if attr == 'flagbuildnone':
             return [(st, VBool(t.app('sc_fbn', t.BOOL, b.ident)))]
@@ -222,6 +273,7 @@ class ConstructInterface(Interface):
             raise OutOfReach('sub-construct parse on %r' % (str(stream)[:80],))
         H, D = self.H(st)
         c = self.ctx_addr(eng, ctx, st)
+        st.ghost.setdefault('first_sub_ctx', (c, H, D))
         out = []
         if o.model == 'adv':
             ok = fresh('P_ok', t.BOOL)
@@ -302,6 +354,7 @@ class ConstructInterface(Interface):
             raise OutOfReach('sub-construct build on %r' % (stream,))
         H, D = self.H(st)
         c = self.ctx_addr(eng, ctx, st)
+        st.ghost.setdefault('first_sub_ctx', (c, H, D))
         ov = eng.to_dyn(obj, st)
         out = []
         if o.model == 'adv':
@@ -349,6 +402,7 @@ class ConstructInterface(Interface):
     def sub_sizeof(self, eng, sc, ctx, path, st):
         H, D = self.H(st)
         c = self.ctx_addr(eng, ctx, st)
+        st.ghost.setdefault('first_sub_ctx', (c, H, D))
         a = (sc.ident, H, D, c)
         ok = t.app('Z_ok', t.BOOL, *a)
         good, bad = eng.fork(st, ok)
